@@ -81,7 +81,23 @@ func judge(k kase) (key, what, domain string, st stats) {
 			k.N1, r1.LiveBlocks, k.N2, r2.LiveBlocks, st.perIterBlocks), "", st
 	}
 	if r2.LiveBytes > r1.LiveBytes {
-		return "live-bytes-grow-with-N", fmt.Sprintf("live heap bytes after %d iterations: %d; after %d iterations: %d", k.N1, r1.LiveBytes, k.N2, r2.LiveBytes), "", st
+		// Same number of live blocks, more bytes: one of the program's own live values is
+		// larger. The only value a generated iteration may grow is the reassigned string
+		// global, which scap() bounds at 40 bytes (48 with rounding) but which may reach
+		// that bound after any number of iterations. Growth that is a leak continues: a
+		// third, much longer run must exceed what saturation can explain.
+		n3 := k.N2 + 4*(k.N2-k.N1)
+		r3, d := runN(k, n3)
+		if d != "" {
+			return "", "", d, st
+		}
+		if r3.LiveBlocks > r2.LiveBlocks {
+			return "live-blocks-grow-with-N", fmt.Sprintf("live heap blocks after %d iterations: %d; after %d iterations: %d", k.N2, r2.LiveBlocks, n3, r3.LiveBlocks), "", st
+		}
+		if r3.LiveBytes > r2.LiveBytes && r3.LiveBytes-r1.LiveBytes > 64 {
+			return "live-bytes-grow-with-N", fmt.Sprintf("live heap bytes after %d / %d / %d iterations: %d / %d / %d (same number of live blocks; growth beyond what a string bounded at 40 bytes explains)",
+				k.N1, k.N2, n3, r1.LiveBytes, r2.LiveBytes, r3.LiveBytes), "", st
+		}
 	}
 	// heap extent: may differ by fragmentation, but not by more than what a couple of iterations allocate
 	perIterBytes := (r2.MallocBytes - r1.MallocBytes) / int64(k.N2-k.N1)
